@@ -355,9 +355,16 @@ def run(ctx):
     # the same slots and a third of the cases in a build WITHOUT autoconvert (every operation here is between quantities sharing base
     # units, so all of it compiles there): the quantity register must still follow the bare register
     hn = Harness("c07n", [f for f in FEATURE_SETS["all"] if f != "autoconvert"], prelude=prelude(BASES, TYPES))
-    for body in h.slots:
-        hn.slot(body)
-    ncases = [c for i, c in enumerate(cases) if i % 3 == 0]
+    # (three storage types - a float, a primitive integer, a big rational - keep the second build small)
+    keep_ty = ("f64", "i32", "bigrational")
+    remap = {}
+    ncases = []
+    for i, (cid, slot, args) in enumerate(cases):
+        if meta[cid][1] not in keep_ty or i % 2:
+            continue
+        if slot not in remap:
+            remap[slot] = hn.slot(h.slots[slot])
+        ncases.append((cid, remap[slot], args))
     noac_bad = []
     if not hn.build():
         ctx.violation({"kind": "harness-build", "obligation": "the C07 harness no longer compiles against /repo without the autoconvert feature",
